@@ -2,7 +2,7 @@
     prod, sumbool, sumor -> OCaml natives; andb/orb inlined) and ExtrOcamlString (ascii -> char,
     string -> char list).  No Extract Constant / Extract Inductive of our own; nat, N, positive
     stay the extracted inductive types. *)
-From CG Require Import Base.Prelude Model.Ast Model.Check.
+From CG Require Import Base.Prelude Model.Ast Model.Check Model.Dfa.
 From CG Require Import Spec.Choice.
 From CGgen Require Import Consts.
 Require Import ExtrOcamlBasic ExtrOcamlString.
@@ -11,4 +11,5 @@ Set Extraction KeepSingleton.
 Separate Extraction
   Consts.builtins Consts.array_start_bash
   Check.from_grammar
+  Dfa.accepts Dfa.inp_eqb Dfa.mkcdfa Dfa.mkall Dfa.trans_states
   Choice.spec.
